@@ -147,7 +147,7 @@ func claimKey(o *Obligation) string {
 
 // missingIsViolation: a claimed key for which no obligation is generated any more.
 func missingIsViolation(key string) bool {
-	for _, k := range []string{":safe", ":pre[", ":spawn[", ":guard[", ":chan[", ":crash[", ":frame[", ":vacuity["} {
+	for _, k := range []string{":safe", ":pre[", ":spawn[", ":guard[", ":chan[", ":crash[", ":frame[", ":vacuity[", ":cover[after:"} {
 		if strings.Contains(key, k) {
 			return false // the function, call site or access was removed: nothing left that could violate the clause
 		}
@@ -512,6 +512,27 @@ func cmdCheck(args []string) int {
 		for _, o := range obs {
 			k := claimKey(o)
 			if !bad[k] && !seenKey[k] {
+				seenKey[k] = true
+				lines = append(lines, k)
+			}
+		}
+		// functions that were verified and have no failing safety obligation (possibly none at all) are claimed safe as a
+		// whole: a safety obligation that appears later in such a function and fails is a violation
+		for _, r := range reports {
+			if r.Trusted || r.OutOfReach != "" {
+				continue
+			}
+			k := shortFuncName(r.Key) + ":safe"
+			if bad[k] || seenKey[k] || noclaim(k+"[") {
+				continue
+			}
+			match := len(ps.Claim) == 0
+			for _, c := range ps.Claim {
+				if ok, _ := regexp.MatchString(c, k+"["); ok {
+					match = true
+				}
+			}
+			if match {
 				seenKey[k] = true
 				lines = append(lines, k)
 			}
